@@ -123,6 +123,10 @@ class Analysis:
         """State after an except body ended normally (default: unchanged)."""
         return state
 
+    def scope_outcome(self, state, with_node, fired: bool):
+        """State after an absorbing cancel scope ended: `fired` = its deadline abandoned the body (default: unchanged)."""
+        return state
+
     def loop_back(self, loop, state):
         """State with which the next iteration starts (default: unchanged)."""
         return state
@@ -214,7 +218,7 @@ class Analysis:
         if self.absorb_stack and self._may_suspend(s):
             # abandoned while suspended in this statement: nothing of it has taken effect
             for col in self.absorb_stack:
-                col |= set(states)
+                col |= {self.exc_state(st, s) for st in states}  # same notion of "how far it got" as for an exception raised there
         if isinstance(
             s,
             (ast.FunctionDef, ast.AsyncFunctionDef, ast.ClassDef, ast.Import, ast.ImportFrom, ast.Pass, ast.Global, ast.Nonlocal),
@@ -247,6 +251,10 @@ class Analysis:
                 self.with_stack.pop()
                 abandoned = self.absorb_stack.pop() if absorbing else set()
             o = self.with_exit(s, o, entered)
+            if absorbing:
+                # `with move_on_after(…) as scope`: scope.cancelled_caught tells the two ways out apart
+                o.normal = {self.scope_outcome(x, s, False) for x in o.normal}
+                abandoned = {self.scope_outcome(x, s, True) for x in abandoned}
             out.absorb(o, True)
             out.normal |= abandoned
             return out
